@@ -15,7 +15,7 @@ pub struct C19;
 const ALLOWED: &[&str] = &[
     "rand", "heap_pad", "env_pad", "stack", "malloc_tun", "cwd_name", "rel", "file_name", "spelling", "argv0",
     "env_kind", "locale", "rust_backtrace", "stdin", "stdout", "stderr", "merged", "decoys", "clock", "pid",
-    "env_bytes", "sig", "umask", "fds", "script_mode", "uid", "rlimit", "malloc_mode",
+    "env_bytes", "sig", "umask", "fds", "script_mode", "uid", "rlimit", "malloc_mode", "flock",
 ];
 
 pub fn pick_program(ctx: &Ctx, rng: &mut Rng) -> programs::Picked {
@@ -39,7 +39,7 @@ impl Property for C19 {
         if tier == "thorough" { 1_500_000 } else { 40_000 }
     }
     fn rule(&self) -> String {
-        "case = (program from W1 corpus | W5 supplementary scripts (function values, many-key objects, object rest, duplicate names) | W6 generated scripts that fail while many similarly spelled variables/properties/functions/parameters are in reach | W4 recombined corpus | W2 call-tree generator | W3 object histories) x (world: random subset of 28 dimensions (hash keys, heap/env/stack layout, malloc tunables, cwd, script location, file name, path spelling, argv[0], environment kind, locale, RUST_BACKTRACE, stdin/stdout/stderr kinds, 2>&1, decoy files, clock, pid, non-Unicode environment entries, inherited signal dispositions/mask, umask, extra open fds, script permissions/mtime, uid, generous resource limits, allocator behaviour: tcache off / memory perturbation) changed against the reference world w0) x (plan of invisible I/O events: write/read chunking, EINTR bursts, short writes, ERANGE on getcwd, wrong size hint; in 5% of the cases instead one read-path fault - getcwd, open or read error - applied identically in the reference world and in the varied world); oracle: transcript (stdout, stderr, exit status) equals the reference world's up to the echoed script path; a case is non-trivial when the world differs from w0 or an invisible event fired; distinct = distinct (program, world, plan) triples".to_string()
+        "case = (program from W1 corpus | W5 supplementary scripts (function values, many-key objects, object rest, duplicate names) | W6 generated scripts that fail while many similarly spelled variables/properties/functions/parameters are in reach | W4 recombined corpus | W2 call-tree generator | W3 object histories) x (world: random subset of 29 dimensions (hash keys, heap/env/stack layout, malloc tunables, cwd, script location, file name, path spelling, argv[0], environment kind, locale, RUST_BACKTRACE, stdin/stdout/stderr kinds, 2>&1, decoy files, clock, pid, non-Unicode environment entries, inherited signal dispositions/mask, umask, extra open fds, script permissions/mtime, uid, generous resource limits, allocator behaviour: tcache off / memory perturbation, an exclusive advisory lock held on the script by another process) changed against the reference world w0) x (plan of invisible I/O events: write/read chunking, EINTR bursts, short writes, ERANGE on getcwd, wrong size hint; in 5% of the cases instead one read-path fault - getcwd, open or read error - applied identically in the reference world and in the varied world); oracle: transcript (stdout, stderr, exit status) equals the reference world's up to the echoed script path; a case is non-trivial when the world differs from w0 or an invisible event fired; distinct = distinct (program, world, plan) triples".to_string()
     }
     fn assumptions(&self) -> Vec<String> {
         vec![
@@ -178,8 +178,8 @@ impl Property for C19 {
         out.nontrivial = !changed.is_empty() || !out.fired.is_empty();
 
         let exp_err = oracle::expected_stderr(&reference, &r.argv1, &r.abs_script);
-        let cmp_stdout = case.world.stdout != 3;
-        let cmp_stderr = case.world.stderr != 3 || case.world.merged;
+        let cmp_stdout = case.world.stdout != 3 && case.world.stdout != 9;
+        let cmp_stderr = (case.world.stderr != 3 && case.world.stderr != 9) || case.world.merged;
         let mut diffs = vec![];
         if r.status != reference.status {
             diffs.push(format!("exit status {} != {}", r.status.render(), reference.status.render()));
